@@ -545,6 +545,11 @@ pub fn run(ctx: &Ctx) -> (Stats, Spec) {
             check_bytes(&mut st, t.as_bytes(), None, "digits");
             check_bytes(&mut st, b"a", Some(t.as_bytes()), "digits-as-ordering");
         }
+        // texts consisting of comments only (with and without anything after the last quote), also as ordering
+        for t in ["\"c\"", "\"\"", "\"a\" \"b\"", "\"a\"\"b\"", " \"c\"", "\"c\" ", "\"c\"\n", "\"multi\nline\"", "\"", "\"\"\"", "", " ", "\n"] {
+            check_bytes(&mut st, t.as_bytes(), None, "comments-only");
+            check_bytes(&mut st, b"a | b", Some(t.as_bytes()), "comments-only-as-ordering");
+        }
         for (f, o) in [("a & b", "x a b"), ("a & b", "b"), ("a & b", "b zz a"), ("exists a # a & b", "a b"), ("c | (a & b)", "zz yy xx c")] {
             check_bytes(&mut st, f.as_bytes(), Some(o.as_bytes()), "ordering-superset");
         }
